@@ -49,7 +49,7 @@ class TypeNormalizer:
         if UnionType and isinstance(t, UnionType):
             return self(t.__args__, fn)
         elif origin is type:
-            return t
+            return type[object] if t.__args__ == (typing.Any,) else t
         elif origin and getattr(t, "__args__", None) is None:
             return t
         elif origin is not None:
